@@ -2,7 +2,7 @@
 
 Exhaustive enumeration of Tags.merge_to on real tag stores: every pair of
 source/destination dictionaries over names {a, b, u-umlaut} x values {absent,
-r1, r2} (729 pairs) x overwrite x selector {None, only "a", all but "a"} x
+r1, r2} (729 pairs) x overwrite x selector {None, all but "a"; thorough: also only "a"} x
 every supported (source kind, destination kind) among bzr BasicTags (2a branch
 behind the vfs seam), git LocalGitTagDict (git repositories on /dev/shm, git
 sources additionally with an annotated tag object for r1) and MemoryTags; a
@@ -289,15 +289,15 @@ def check_merge(acc, skind, dkind, stoks, dtoks, overwrite, selname, via="merge_
 
 def _merge_work(chunk):
     acc = par.Acc()
-    for (skind, dkind, via, svals, dvals), sitems in chunk:
+    for (skind, dkind, via, svals, dvals), sitems, sels in chunk:
         stoks = dict(sitems)
         for dtoks in dicts(dvals):
             for overwrite in (False, True):
-                for selname in SELECTORS:
+                for selname in sels:
                     check_merge(acc, skind, dkind, stoks, dtoks, overwrite, selname, via)
         acc.sample({"source_kind": skind, "dest_kind": dkind, "via": via, "source": stoks,
                     "dest": "all %d dicts" % ((len(dvals) + 1) ** len(NAMES)), "overwrite": "both",
-                    "selectors": list(SELECTORS)})
+                    "selectors": list(sels)})
     return acc
 
 
@@ -372,12 +372,12 @@ BOUND_SELECTORS = (None, "only-a")
 
 def _bound_work(chunk):
     acc = par.Acc()
-    for skind, names, sitems, citems in chunk:
+    for skind, names, sitems, citems, bsels in chunk:
         stoks, ctoks = dict(sitems), dict(citems)
         for mtoks in dicts("12", names):
             for overwrite in (False, True):
                 for ignore_master in (False, True):
-                    for selname in BOUND_SELECTORS:
+                    for selname in bsels:
                         check_bound(acc, skind, stoks, ctoks, mtoks, overwrite, ignore_master, selname)
     return acc
 
@@ -527,10 +527,12 @@ def run(ctx):
     # NB: the world is created lazily inside each worker (git repositories are directories)
     # {bzr,git} -> MemoryTags is not a supported direction: MemoryTags has no branch for InterTags
     combos = list(COMBOS) + (COMBOS_T if ctx.thorough else [("git", "git", "merge_to", "1T", "1T")])
+    sels = SELECTORS if ctx.thorough else (None, "not-a")
+    bsels = BOUND_SELECTORS if ctx.thorough else (None,)
     items = []
     for c in combos:
         for stoks in dicts(c[3]):
-            items.append((c, _key(stoks)))
+            items.append((c, _key(stoks), sels))
     acc1 = par.merge(par.pmap(_merge_work, items, seed=ctx.seed))
     # bound destination
     bnames = NAMES if ctx.thorough else NAMES[:2]
@@ -538,7 +540,7 @@ def run(ctx):
     for skind in ("bzr", "git", "mem"):
         for stoks in dicts("12", bnames):
             for ctoks in dicts("12", bnames):
-                bitems.append((skind, bnames, _key(stoks), _key(ctoks)))
+                bitems.append((skind, bnames, _key(stoks), _key(ctoks), bsels))
     acc2 = par.merge(par.pmap(_bound_work, bitems, seed=ctx.seed))
     # round trips
     L = ctx.q(2, 2)
@@ -590,6 +592,8 @@ def run(ctx):
         "combos": [list(c) for c in combos],
         "dict_pairs_per_combo": {"%s->%s:%s:%s/%s" % c: (len(c[3]) + 1) ** 3 * (len(c[4]) + 1) ** 3 for c in combos},
         "bound_names": list(bnames),
+        "selectors": [str(x) for x in sels],
+        "bound_selectors": [str(x) for x in bsels],
         "roundtrip_dicts": len(rt),
         "git_names_stored": total.counters.get("git_names_stored", 0),
         "git_names_refused": total.counters.get("git_names_refused", 0),
